@@ -183,6 +183,12 @@ class StructObjModel:
     def unpack(self, data):
         return StructModel.unpack(self.format, data)
 
+    def pack_into(self, buffer, offset, *vals):
+        b = SymBytes.of(self.pack(*vals))
+        if type(offset) is SymInt:
+            offset = offset.__index__()
+        buffer[offset:offset + self.size] = b
+
     def unpack_from(self, data, offset=0):
         return StructModel.unpack(self.format, SymBytes.of(data)[offset:offset + self.size] if type(data) not in (bytes, bytearray) else data[offset:offset + self.size])
 
@@ -507,6 +513,65 @@ class Src:
         return self.i >= _len(self.items)
 
 
+class BufferViewModel:
+    """read-only memoryview-like window over an item sequence (symbolic bytes and opaque payloads)"""
+
+    __class__ = property(lambda self: memoryview)
+
+    def __init__(self, items):
+        self._items = items
+
+    def items(self):
+        return list(self._items)
+
+    def __sym_len__(self):
+        return SymBytes(self._items).sym_len()
+
+    def __len__(self):
+        n = self.__sym_len__()
+        return n if type(n) is int else n.__index__()
+
+    @property
+    def nbytes(self):
+        return self.__sym_len__()
+
+    def __getitem__(self, k):
+        r = SymBytes(self._items)[k]
+        if type(k) is slice:
+            return BufferViewModel(list(SymBytes.of(r).items))
+        return r
+
+    def __setitem__(self, k, v):
+        raise Unsupported("write through BytesIO.getbuffer() has no model")
+
+    def tobytes(self):
+        return S._norm(SymBytes(self._items))
+
+    def __bytes__(self):
+        sb = SymBytes(self._items)
+        if sb.is_concrete():
+            return sb.concrete()
+        raise Unsupported("bytes() of a symbolic buffer view reached C level")
+
+    def __eq__(self, o):
+        return SymBytes(self._items) == (SymBytes(o.items()) if hasattr(o, "items") and not isinstance(o, dict) else o)
+
+    def __hash__(self):
+        raise Unsupported("hash of a buffer view")
+
+    def release(self):
+        pass
+
+    def __enter__(self):
+        return self
+
+    def __exit__(self, *a):
+        return False
+
+    def __repr__(self):
+        return "<BufferViewModel>"
+
+
 class BytesIOModel:
     """Model of io.BytesIO over item sequences (symbolic bytes and opaque payloads)."""
 
@@ -544,7 +609,10 @@ class BytesIOModel:
         return S._norm(SymBytes(self.items))
 
     def getbuffer(self):
-        raise Unsupported("BytesIO.getbuffer has no model")
+        # a read-only snapshot view of the current content (writes through the view, and writes to the buffer
+        # while a view is alive, are not modelled)
+        self._chk()
+        return BufferViewModel(list(self.items))
 
     def tell(self):
         self._chk()
@@ -1178,7 +1246,7 @@ class DatetimeModule:
     timedelta = TD
 
 
-S._PROXY_BASE.update({TD: _dt.timedelta, DT: _dt.datetime, TZ: _dt.tzinfo})
+S._PROXY_BASE.update({TD: _dt.timedelta, DT: _dt.datetime, TZ: _dt.tzinfo, BufferViewModel: memoryview})
 for _m, _r in ((TD, _dt.timedelta), (DT, _dt.datetime), (UUIDModel, _uuid.UUID), (BytesIOModel, _io.BytesIO)):
     S._MODEL_TO_REAL[id(_m)] = _r
 S._UNWRAP_HOOKS.append(lambda cls: cls._real if type(cls) is EnumModel else None)
@@ -1310,3 +1378,28 @@ class LruModel:
 
     def __repr__(self):
         return f"<LruModel of {getattr(self.fn, '__qualname__', self.fn)!r}>"
+
+
+def operator_index(x):
+    """operator.index for proxies: an integer proxy is its own index (the real function would force a concrete value)"""
+    import operator as _op
+
+    t = type(x)
+    if t is SymInt or (t.__module__ in ("kv.rmode", "kv.fmode") and S.proxy_python_type(x) is int):
+        return x
+    if t is SymBool:
+        return SymInt(*lift(x))
+    if S.proxy_python_type(x) is not None:
+        raise TypeError(f"'{S.proxy_python_type(x).__name__}' object cannot be interpreted as an integer")
+    return _op.index(x)
+
+
+class OperatorModel:
+    """stand-in for the `operator` module in kio modules"""
+
+    index = staticmethod(operator_index)
+
+    def __getattr__(self, name):
+        import operator as _op
+
+        return getattr(_op, name)
